@@ -304,6 +304,10 @@ class Tr:
             return "(if %s then %s else %s)" % (self.boolean(e.test), self.boolean(e.body), self.boolean(e.orelse))
         if isinstance(e, ast.Call) and isinstance(e.func, ast.Name) and e.func.id == "bool" and len(e.args) == 1:
             return self.boolean(e.args[0])
+        if isinstance(e, ast.BinOp):
+            # python truthiness of a numeric expression (`if byte & mask:`)
+            n, _d = self.num(e)
+            return "(decide (%s ≠ 0))" % n
         self.fail("unsupported boolean expression: " + src, e)
 
 
@@ -468,6 +472,25 @@ def locate(fn, loc):
         if len(hits) <= loc[2]:
             raise Fail("%s: no augmented assignment to %s" % (fn.name, loc[1]), fn)
         return hits[loc[2]]
+    if kind == "if_exact":
+        hits = [n.test for n in ast.walk(fn) if isinstance(n, (ast.If, ast.While, ast.IfExp)) and ast.unparse(n.test) == loc[1]]
+        if len(hits) != 1:
+            raise Fail("%s: expected exactly one test `%s`, found %d" % (fn.name, loc[1], len(hits)), fn)
+        return hits[0]
+    if kind == "aug":
+        # value of the nth (source order) `target += value`
+        hits = sorted((n for n in ast.walk(fn) if isinstance(n, ast.AugAssign) and isinstance(n.op, ast.Add) and ast.unparse(n.target) == loc[1]),
+                      key=lambda n: (n.lineno, n.col_offset))
+        if len(hits) <= loc[2]:
+            raise Fail("%s: no augmented assignment #%d to %s" % (fn.name, loc[2], loc[1]), fn)
+        return hits[loc[2]].value
+    if kind == "slice_upper":
+        # upper bound of the nth (source order) slice `base[lo:hi]`
+        hits = sorted((n for n in ast.walk(fn) if isinstance(n, ast.Subscript) and isinstance(n.slice, ast.Slice) and ast.unparse(n.value) == loc[1]
+                       and n.slice.upper is not None and n.slice.step is None), key=lambda n: (n.lineno, n.col_offset))
+        if len(hits) <= loc[2]:
+            raise Fail("%s: no slice #%d of %s" % (fn.name, loc[2], loc[1]), fn)
+        return hits[loc[2]].slice.upper
     raise Fail("bad locator %r" % (loc,))
 
 
@@ -714,6 +737,13 @@ def gen(repo, outdir, selftest_out=None):
                 else:
                     body = n
         except Fail as f:
+            if opts.get("optional") and rty == "bool" and "no test mentioning" in f.msg:
+                # an optional test that this tree does not contain never fires
+                nty = "Nat" if opts.get("nat") else "Int"
+                sig = " ".join("(_%s : %s)" % (p[1], nty if p[2] == "num" else "Bool") for p in params)
+                by_mod.setdefault(mod, []).append(
+                    "/-- `%s` (%s): optional test, ABSENT from this tree -/\ndef %s %s : Bool :=\n  false\n" % (qual, rel, lname, sig))
+                continue
             if f.file is None:
                 f.file = rel
             raise
